@@ -54,6 +54,9 @@ class Constant(AnnotatedValue):
         integer, rather than rounding."""
         if isinstance(self._value, int):
             return self._value
+        elif isinstance(self._value, Constant):
+            # A constant defined by another constant has that one's value
+            return int(self._value)
         else:
             raise JaqalError(f"Could not convert {type(self._value)} to int")
 
